@@ -86,4 +86,9 @@ TEXT = {
         "level": "Generated search over (auth mode, interleaved mode, warm-up, mutation kind, field, source, position) - 500 scripted exchanges quick, tens of thousands thorough. Exploration.",
         "note": "IP transport (SCION source/destination and SPAO checks belong to C13). Datagrams from another port of the queried address are not judged. An acceptable datagram hidden behind junk may legitimately be skipped (only soundness of acceptance and completeness for a lone genuine reply are asserted).",
     },
+    "C13": {
+        "technique": "property-based testing (rapid) over loopback against the real SCION listener and client with USE_MOCK_KEYS: generated SCION packets (payload kind, address families, ISD-AS, path shape and position, extensions, authenticator variants) with sentinel-delimited reply collection; oracle = independently recomputed SPAO MAC over the packet as received (spao library), independently computed path reversal, address/port exchange, payload echo, forwarding predicate; end-to-end exchanges through a byte-flipping relay",
+        "level": "Generated search: 2500 listener probes + 300 end-to-end exchanges quick, 10x per shard thorough. Exploration.",
+        "note": "Mock keys (all-zero host-host key) stand for DRKey; 'wrong key' is represented by mutated MACs/covered bytes. scionproto slayers/spao are trusted. EPIC paths and the panic-inducing inputs (P9) are outside this generator (C08). Found and repaired: replies to one-hop-path requests carried the wrong path type (5d5f48f); MeasureClockOffsetSCION reported offset 0 without error when every path failed (3b20f61).",
+    },
 }
